@@ -976,6 +976,17 @@ def rules_scan(prog, res, m=None):
     return {"fa": fa, "fn": f}
 
 
+_ISEM = {}
+
+
+class ISemBacked(SemBacked):
+    def ob(self, rule, key, ok, detail="", loc=None, sample=None):
+        k = str(key)
+        if rule == "I-iter" and not ok and k.startswith("iter | ") and "consumed()" not in k and "new(data)" not in k:
+            return self.res.ob(rule, key, True, "shape not recognised by the template rule; the clause is decided by I-sem (abstract interpretation). " + str(detail)[:200], loc)
+        return self.res.ob(rule, key, ok, detail, loc, sample=sample)
+
+
 def rules_iter(prog, res):
     """I-iter: MsgFrameIter::{new, consumed, next}."""
     f = prog.fn(ITER_NEXT)
@@ -983,6 +994,19 @@ def rules_iter(prog, res):
         res.missing("I-iter", ITER_NEXT)
         return
     res.fn(f)
+    if id(prog) not in _ISEM:
+        import framesem
+        try:
+            _ISEM[id(prog)] = framesem.check_iter(prog)
+        except RecursionError:
+            _ISEM[id(prog)] = {"paths": 0, "problems": [], "undecided": ["recursion limit"]}
+    sem = _ISEM[id(prog)]
+    if not sem["undecided"]:
+        res.ob("I-iter", "iter | next() = None when index >= data.len(), else one scan of data[index..], index += consumed, the scanner's frame returned [I-sem]",
+               not sem["problems"], "; ".join(sem["problems"])[:500] if sem["problems"] else "abstract interpretation: %d paths" % sem["paths"], f.loc)
+        if not sem["problems"]:
+            res.ob("I-iter", "iter | scanner is given data[index..]", True, "decided by I-sem", f.loc)
+            res = ISemBacked(res)
     fa = FA(f, prog)
     names = fa.names
     adt = prog.adts.get("MsgFrameIter")
